@@ -189,7 +189,24 @@ pub fn check(c: &Case) -> Outcome {
         if c.method != Meth::RK4 {
             for yi in &sol.y {
                 if !all_finite(yi) {
-                    return Outcome::viol(format!("{}: Success with non-finite state", desc));
+                    // finding K5 (listed under C04): DOP853's extra dense-output stages leave the domain of the
+                    // right-hand side although every accepted state is inside it
+                    let key = if c.method == Meth::DOP853 && matches!(instr.fault, Some(Fault::NormAbove { .. })) && (opts.t_eval.is_some() || opts.dense) {
+                        let mut o2 = opts.clone();
+                        o2.t_eval = None;
+                        o2.dense = false;
+                        let mut i2 = Instr::new(&prob, &evs);
+                        i2.dir = d;
+                        i2.budget = 3_000_000;
+                        i2.fault = instr.fault.clone();
+                        match solve(&i2, x0, xend, &y0, &o2) {
+                            RunResult::Ok(s2) if s2.status == Status::Success && s2.y.iter().all(|y| all_finite(y)) => "C04-dop853-dense-stage-outside-domain",
+                            _ => "",
+                        }
+                    } else {
+                        ""
+                    };
+                    return Outcome::viol_key(key, format!("{}: Success with non-finite state", desc));
                 }
             }
         }
